@@ -4,46 +4,46 @@ import json, os
 HERE = os.path.dirname(os.path.dirname(os.path.abspath(__file__)))
 os.chdir(HERE)
 T = {
- "C01": ("Three-way agreement with a bit-serial reference division and crc_legacy on generated frames, parity closure, sampled linearity, exhaustive weight<=3 / burst<=12 injection on valid frames, and an exhaustive syndrome-closure computation that is complete for weight<=5 given linearity. Also 2000 real DF17 frames, string-level parity-field cases and a concurrent-callers leg.",
+ "C01": ("Three-way agreement with a bit-serial reference division and crc_legacy on generated frames, parity closure, sampled linearity, exhaustive weight<=3 / burst<=12 injection on valid frames, and an exhaustive syndrome-closure computation that is complete for weight<=5 given linearity. Also 2000 real DF17 frames, string-level parity-field cases and a concurrent-callers leg. Frames whose data parity is a value of its own (FFFFFF, 000000, one bit, the generator's low bits) are constructed by a GF(2) solve.",
          "ref/crc24.py written from Annex 10 and confirmed on 2000 real DF17 frames; implementation linearity is sampled, not proved.",
          "property-based testing (Hypothesis) + exhaustive enumeration against a reference CRC"),
- "C02": ("Generated frames for every DF 0..31, both lengths and three letter cases, built with the AA field or the AP overlay of a reference CRC; exact recovery, None elsewhere, string identity across formats/cases for one transponder, and a strided (thorough: complete) sweep of the 2^24 addresses. Also real DF17/20/21 frames with known addresses, AP fields that repeat data digits, and a concurrent-callers leg.",
+ "C02": ("Generated frames for every DF 0..31, both lengths and three letter cases, built with the AA field or the AP overlay of a reference CRC; exact recovery, None elsewhere, string identity across formats/cases for one transponder, and a strided (thorough: complete) sweep of the 2^24 addresses. Also real DF17/20/21 frames with known addresses, AP fields that repeat data digits, and a concurrent-callers leg. Payloads whose data parity is all ones / zero / one bit / the address / its complement are constructed by a GF(2) solve.",
          "ref/crc24.py AP/PI overlay per Annex 10, confirmed on 10 000 real DF20/21 replies with known addresses.",
          "property-based testing (Hypothesis) + address-space enumeration, round trip through a reference frame builder"),
  "C07": ("Exhaustive enumeration of all 8192 13-bit codes and all 4096 x TC 12-bit fields, each embedded in every carrier format with random contexts, against a Gillham *encoder* written from Annex 10; context independence as a metamorphic relation. Call history on the same string and 937 real frames re-encoded by the reference.",
          "ref/gillham.py encoder (1280 legal codes); metric altitudes judged to < 1 ft.",
          "exhaustive enumeration against the inverse image of a reference Gillham encoder"),
- "C08": ("Exhaustive enumeration of all 8192 identity patterns (Python and emulated Cython squawk, DF5/DF21/TC28 carriers), the full FS x DR x IIS x IDS product, CA x all interrogator codes incl. the corrupt range, and every DF for the guards.",
+ "C08": ("Exhaustive enumeration of all 8192 identity patterns (Python and emulated Cython squawk, DF5/DF21/TC28 carriers), the full FS x DR x IIS x IDS product, CA x all interrogator codes incl. the corrupt range, and every DF for the guards. Every bit behind the reply fields set / clear (AP or PI field included, by choice of the address) for a quarter of the surveillance sweep and in the all-call leg.",
          "interleave and SI numbering per Annex 10; description strings not asserted.",
          "exhaustive enumeration with random contexts against reference encoders"),
  "C09": ("All 128x2x128 surface movement/track codes exhaustively; every TC19 field swept over its whole range per subtype with the rest random, plus boundary-biased Hypothesis combinations; results compared with the DO-260B encoding rules.",
          "surface speed accepted anywhere inside the DO-260B movement bin; reserved subtypes left to C14.",
          "exhaustive enumeration + property-based testing against the DO-260B field encoding"),
- "C10": ("Every legal character code at every position exhaustively plus random identifications, on TC1-4 (DF17/18) and BDS 2,0 (DF20/21) carriers, with a one-character metamorphic change. Keyword access path, 98 real frames, concurrent callers.",
+ "C10": ("Every legal character code at every position exhaustively plus random identifications, on TC1-4 (DF17/18) and BDS 2,0 (DF20/21) carriers, with a one-character metamorphic change. Keyword access path, 98 real frames, concurrent callers. Leg sparse: blank and nearly blank identifications, one character at every position among spaces or one filler, one character eight times, digits only.",
          "Annex 10 six-bit alphabet table in the check.",
          "property-based testing (Hypothesis) + exhaustive per-position enumeration, encode/decode round trip"),
  "C11": ("Exhaustive sweep of every raw value x status x sign of all 34 Comm-B fields (BDS 1,0 1,7 4,0 4,4 4,5 5,0 5,3 6,0) with random contexts, judged against a Doc 9871 layout table; each decoder reached through commb.*, bdsXX.* and the deprecated aliases; context independence. Constant and boundary contexts, str-subclass frames, aliasing of cap17's list.",
          "field table ref/doc9871.py written from ICAO Doc 9871; floats to 1e-9.",
          "exhaustive enumeration with random contexts against a reference field table (encode/decode round trip)"),
- "C13": ("Every field of TC28, TC29 subtype 0/1 and TC31 swept over all of its values with the remaining bits random, all position type codes x supplements x versions for the look-ups, monotonicity of bounds and label functions as self-contained cases; judged against DO-260A/B layout tables.",
+ "C13": ("Every field of TC28, TC29 subtype 0/1 and TC31 swept over all of its values with the remaining bits random, all position type codes x supplements x versions for the look-ups, monotonicity of bounds and label functions as self-contained cases; judged against DO-260A/B layout tables. The selected heading is compared exactly (360.0 for an encoded 0 is a failure).",
          "ref/do260.py layouts; label strings, reserved codes and supplement-dependent NIC of TC7/8 (v1) not asserted.",
          "exhaustive per-field enumeration against reference layouts"),
- "C15": ("Differential testing of py_common against the working-tree c_common.pyx run through a C-typing emulator (exhaustive for 13/11-bit codes, Hypothesis for frames, floats, addresses), calibration of the emulator against the pre-built binary, and every decoder incl. tell() run in two package copies bound to either module.",
+ "C15": ("Differential testing of py_common against the working-tree c_common.pyx run through a C-typing emulator (exhaustive for 13/11-bit codes, Hypothesis for frames, floats, addresses), calibration of the emulator against the pre-built binary, and every decoder incl. tell() run in two package copies bound to either module. bin2hex is also compared on frame-length bit strings (56 ... 120 bits).",
          "no Cython compiler exists on the image: the .pyx is observed through /verif/pyxemu (calibrated on the pinned source against the binary); C undefined behaviour is outside its model.",
          "differential property-based testing (Hypothesis) + exhaustive enumeration between two build configurations"),
  "C16": ("Generated Beast / AVR / Skysense streams (0x1A forced into every field) delivered under every single cut, all 1-byte pieces, drawn multi-cuts and every pair of cuts; output after each read compared with the expected frame list computed from the generating frames; NetSource forwarding with a stub pipe. Plus the run() loop on a scripted socket with timeouts, reader->NetSource end to end with repeated frames, bulk Comm-B stretches, and an atheris campaign in the thorough tier.",
          "harness owns the chunking (buffer.extend + reader, as run() does); wall-clock time stamps ignored.",
          "property-based testing (Hypothesis) with exhaustive segmentation enumeration against a reference framer"),
- "C17": ("Rule-based state machine owning the clock: trajectories up to 600 kt across NL bands, equator and antimeridian, surface/airborne toggles, noise and Comm-B traffic, gaps around the 10 s / 60 s / 180 s thresholds; after every flush: no exception, listing model, Comm-B gating and attachment, upper/lower-case table equality, stored positions vs true positions. Plus negative and very large start times, sub-second process_raw calls across the eviction threshold, a decoder without receiver position, and a replay of the repository's real reception log.",
+ "C17": ("Rule-based state machine owning the clock: trajectories up to 600 kt across NL bands, equator and antimeridian, surface/airborne toggles, noise and Comm-B traffic, gaps around the 10 s / 60 s / 180 s thresholds; after every flush: no exception, listing model, Comm-B gating and attachment, upper/lower-case table equality, stored positions vs true positions. Plus negative and very large start times, sub-second process_raw calls across the eviction threshold, a decoder without receiver position, and a replay of the repository's real reception log. GNSS-height position type codes (TC 20-22) and the T bit are drawn; Comm-B replies that satisfy the BDS 5,0 and 6,0 layouts at once.",
          "CPR frames from ref/cpr.py; processes/sockets/curses of modeslive are not run; the harness owns timestamps and tnow.",
          "stateful property-based testing (Hypothesis RuleBasedStateMachine) against a reference model + coverage-guided fuzzing (atheris/libFuzzer) of histories in the thorough tier"),
  "C18": ("Uplink frames built from Annex 10 layouts with the uplink AP encoder; UF11 PR x IC x CL exhaustive, UF4/5/20/21 RR x DI x structured+random SD (exhaustive per DI in the thorough tier), every UF; uplink_fields cross-checked with the single-field functions. Repeated calls and aliasing of the returned dict.",
          "uplink AP per Annex 10 3.1.2.3.3.2 in ref/crc24.py; IC for CL 5-7 and DI 2,4,5,6 unconstrained.",
          "property-based testing (Hypothesis) + field-product enumeration, encode/decode round trip"),
- "C19": ("Synthetic pulse-position-modulated sample buffers (1-4 frames, any offset, amplitude 0.3-1.4 with jitter, four noise shapes up to 10 dB below the pulses, corrupted DF17 decoys, consecutive buffers sharing the noise floor) through RtlReader._process_buffer on an instance made without hardware. Per-buffer noise levels, frames up to the buffer end, and the IQ path through _read_callback.",
+ "C19": ("Synthetic pulse-position-modulated sample buffers (1-4 frames, any offset, amplitude 0.3-1.4 with jitter, four noise shapes up to 10 dB below the pulses, corrupted DF17 decoys, consecutive buffers sharing the noise floor) through RtlReader._process_buffer on an instance made without hardware. Per-buffer noise levels, frames up to the buffer end, and the IQ path through _read_callback. Second signal model since round 10: the noise is also present under the pulses (sample = |pulse + noise at a pseudo-random phase|, cut off at 1.414), judged from 14 dB up; corner payloads (empty register / ME field, all ones), the weakest next to the strongest frame, a preamble at sample 0.",
          "noise additionally capped at 0.19 (the preamble matcher takes any sample >= 0.2 as a pulse); frames lie inside their buffer.",
          "property-based testing (Hypothesis) with a signal synthesiser as the reference encoder"),
- "C20": ("Generated altitudes/speeds/Mach numbers and coordinate pairs (tropopause, sea level, antipodal, polar, antimeridian): ISA against an independent implementation and tabulated rows, inverse pairs, strict monotonicity, sea-level identities, orderings, haversine agreement, scalar/array metamorphic relation. Integer scalars and integer-dtype arrays, arrays updated in place.",
+ "C20": ("Generated altitudes/speeds/Mach numbers and coordinate pairs (tropopause, sea level, antipodal, polar, antimeridian): ISA against an independent implementation and tabulated rows, inverse pairs, strict monotonicity, sea-level identities, orderings, haversine agreement, scalar/array metamorphic relation. Integer scalars and integer-dtype arrays, arrays updated in place. Also unsigned altitude arrays, float32 speeds against the double-precision atmosphere, and every array result kept across later calls of the same shape (it must keep its contents; inputs must be left untouched).",
          "ref/isa.py; compressible round trips judged at 1e-6 relative.",
          "property-based testing (Hypothesis): differential against a reference ISA, round-trip and metamorphic relations"),
  "C12": ("Five generated relations: totality/EMPTY/DF17 map on arbitrary frames; infer == sorted join of the accepting predicates on DF20/21; completeness on register contents built field by field inside the envelope (boundaries included, IAS derived from Mach through an independent ISA for DF20); soundness with exactly one status/reserved/format rule broken; is50or60 arbitration on payloads satisfying both layouts by construction against independently computed velocity-vector distances. Real DF20/21 replies labelled by the reference rules; BDS 5,3 status rules.",
@@ -55,13 +55,13 @@ T = {
  "C03": ("Generated even/odd airborne pairs from an independent DO-260B reference encoder, dense at every NL transition, pole, equator and antimeridian, all time and argument orders; decoded result compared with the encoded position of the newer frame. Time stamps as int, float and datetime (incl. a DST gap); 924 real pairs re-encoded by the reference encoder.",
          "ref/cpr.py (encoder, NL table cross-checked with the printed DO-260B values, encoder confirmed on 924 real even/odd pairs); tolerance one quantisation step as the property states.",
          "property-based testing (Hypothesis), round trip through a reference CPR encoder"),
- "C04": ("Generated single frames (airborne and surface, both parities) with references drawn anywhere inside the half-zone box incl. its edge, across equator/meridians; round trip through the reference encoder plus metamorphic invariance under moving the reference. Edge offsets 0.5-5e-10 zone, integer references, and the same string decoded earlier against a far reference.",
+ "C04": ("Generated single frames (airborne and surface, both parities) with references drawn anywhere inside the half-zone box incl. its edge, across equator/meridians; round trip through the reference encoder plus metamorphic invariance under moving the reference. Edge offsets 0.5-5e-10 zone, integer references, and the same string decoded earlier against a far reference. References exactly on the antimeridian (180.0, -180.0, 180) and on a pole whenever they lie inside the box; the T bit drawn.",
          "ref/cpr.py; references strictly inside the box (|offset| <= 0.4999 zone).",
          "property-based testing (Hypothesis), round trip + metamorphic relation"),
  "C05": ("Generated surface pairs with receivers drawn by bearing/distance within 45 NM, dense where the 90-degree ambiguity is resolved (equator, lon 0/+-90/+-180) and at NL transitions; round trip through the reference encoder. Time stamps as int, float and datetime, letter case, integer receivers, exchanged time stamps on the same strings.",
          "ref/cpr.py; documented argument order (even, odd); one listed known finding (exact north pole) is excluded by predicate and re-probed on every run.",
          "property-based testing (Hypothesis), round trip through a reference CPR encoder"),
- "C06": ("Exhaustive 0.0005-degree latitude grid (0.00002 thorough) and ulp-level neighbourhoods of all 58 transition latitudes, 0, 87, 90, plus Hypothesis floats, against a reference NL table; evenness and monotonicity; Python module and emulated Cython twin.",
+ "C06": ("Exhaustive 0.0005-degree latitude grid (0.00002 thorough) and ulp-level neighbourhoods of all 58 transition latitudes, 0, 87, 90, plus Hypothesis floats, against a reference NL table; evenness and monotonicity; Python module and emulated Cython twin. Exactly +-87.0 must give 2 (the property names that latitude); within 1e-9 deg of any other point of a transition either neighbour is accepted.",
          "reference transitions from the closed form in float64 cross-checked with the DO-260B table; Cython twin seen through /verif/pyxemu.",
          "exhaustive grid enumeration + property-based testing against a reference NL table"),
 }
